@@ -62,19 +62,26 @@ def ref_signum(v):
         return v
     if not isinstance(v, str):
         return -2
-    t = v.strip()
     try:
-        return int(t)
+        return int(v)               # (a numeric string, as int() reads it)
     except ValueError:
         pass
-    name = t.upper()
+    off = 0
+    if "+" in v:                    # SIGRTMIN+3
+        v, _, o = v.partition("+")
+        if not (o.isascii() and o.isdigit()):
+            return -2
+        off = int(o)
+    if not v.isidentifier():        # "TERM ", "KILL!", "": not a name
+        return -2
+    name = v.upper()
     if not name.startswith("SIG"):
         name = "SIG" + name
     if name.startswith("SIG_"):
         return -2
     val = getattr(_signal, name, None)
     if isinstance(val, _signal.Signals):
-        return int(val)
+        return int(val) + off
     return -2
 
 
